@@ -4,6 +4,7 @@ Require Import Rapid.Model.Base Rapid.Model.Syntax Rapid.Model.Monad Rapid.Model
   Rapid.Model.Engine Rapid.Model.Pexp Rapid.Model.Corr.
 Require Import Rapid.Proofs.Inv Rapid.Proofs.Replay Rapid.Proofs.ReplayTop.
 Require Import Rapid.Generated.GeomTable.
+Require Import Rapid.Proofs.Glue.
 Local Open Scope nat_scope.
 
 (* Replay after pruning, for every program p (any nesting of generators, filters, distinct slices, maps,
@@ -26,23 +27,14 @@ Print Assumptions C04_replay_pruned.
 Theorem C04_replay_pruned_gen :
   forall (geom : nat -> N -> N) (LF : nat), 1 <= LF -> forall lvl g,
     replays (run_g geom LF (exec geom LF lvl) g).
-Proof.
-  intros geom LF HLF lvl g. destruct (exec_ok geom LF HLF lvl) as [Hi Hr].
-  exact (proj1 (replay_interp geom LF (exec geom LF lvl) HLF Hi Hr) g).
-Qed.
+Proof. exact C04_replay_pruned_gen_glue. Qed.
 Print Assumptions C04_replay_pruned_gen.
 
 (* The pruned recording is a subsequence of the recording (pruning only deletes). *)
 Theorem C04_pruned_is_subsequence :
   forall (geom : nat -> N -> N) (LF lvl : nat) p s,
     sublist (rpd (w (exec geom LF lvl p s))) (rd (w (exec geom LF lvl p s))).
-Proof.
-  intros geom LF lvl p s.
-  assert (H : forall l, forall q, INV (exec geom LF l q)).
-  { induction l as [|l IH]; intros q; cbn [exec]; [apply inv_throw|].
-    apply (inv_interp geom LF (exec geom LF l) IH). }
-  destruct (H lvl p s) as [H1 _ _]. exact H1.
-Qed.
+Proof. exact C04_pruned_is_subsequence_glue. Qed.
 Print Assumptions C04_pruned_is_subsequence.
 
 (* Non-vacuity: a distinct-slice over a 3-value domain whose run rejects duplicates, is force-stopped,
